@@ -77,6 +77,26 @@ class ScriptedRandom:
         c = self.ch.choose("choices", 2)
         return [population[0 if c == 0 else -1]] * k
 
+    def randrange(self, start, stop=None, step=1):
+        if stop is None:
+            start, stop = 0, start
+        if step != 1 or stop <= start:
+            import random as _r
+
+            return _r.Random(0).randrange(start, stop, step)  # raises ValueError on an empty range like the real one
+        return self.randint(start, stop - 1)
+
+    def choice(self, seq):
+        if not seq:
+            raise IndexError("Cannot choose from an empty sequence")
+        return seq[self.randint(0, len(seq) - 1)]
+
+    def uniform(self, a, b):
+        return (a, b, (a + b) / 2)[self.ch.choose(f"uniform({a},{b})", 3)]
+
+    def randbytes(self, n):
+        return self.getrandbits(n * 8).to_bytes(n, "little")
+
     def __getattr__(self, name):
         raise AssertionError(f"unscripted random.{name} used by fastavro.utils")
 
